@@ -654,7 +654,7 @@ func c20HandlerClose(c *Ctx, r *Report) {
 
 // ---- R20.6 -------------------------------------------------------------------
 func c20TeeSplit(c *Ctx, r *Report) {
-	r.Rule("R20.6", "tee does not relay downstream-done (a later head must not stop the reader while the tee'd file is incomplete), and tee/split give the file writer a Copy() of any record that is also forwarded downstream; both close their output in the end-of-stream branch")
+	r.Rule("R20.6", "tee and split do not relay downstream-done (a later head must not stop the reader while the tee'd or split files are incomplete), and tee/split give the file writer a Copy() of any record that is also forwarded downstream; both close their output in the end-of-stream branch")
 	tee := c.SSAFunc(c.LookupFunc("pkg/transformers", "TransformerTee.Transform"))
 	split := c.SSAFunc(c.LookupFunc("pkg/transformers", "TransformerSplit.Transform"))
 	if tee == nil || split == nil {
@@ -687,6 +687,69 @@ func c20TeeSplit(c *Ctx, r *Report) {
 		}
 	}
 	r.Check(relays == "" && outDone != nil, "R20.6", "tee does not relay downstream-done", c.Rel(tee.Pos()), "the upstream done channel is never sent on or handed out", "tee forwards the downstream-done signal upstream at "+relays+": with 'tee file then head' the reader stops early and the tee'd file is incomplete")
+
+	// split: the same, through the per-mode functions it delegates to (all record functions of split.go)
+	{
+		var relay func(fn *ssa.Function, depth int) string
+		relay = func(fn *ssa.Function, depth int) string {
+			if fn == nil || fn.Blocks == nil || depth > 2 {
+				return ""
+			}
+			od := paramOfType(fn, chanElemIsBool, types.SendOnly, 0)
+			if od == nil {
+				return ""
+			}
+			for _, b := range fn.Blocks {
+				for _, in := range b.Instrs {
+					switch x := in.(type) {
+					case *ssa.Send:
+						if sameChan(x.Chan, od) {
+							return c.Rel(x.Pos())
+						}
+					case *ssa.Select:
+						for _, st := range x.States {
+							if st.Dir == types.SendOnly && sameChan(st.Chan, od) {
+								return c.Rel(x.Pos())
+							}
+						}
+					case *ssa.Call:
+						passes := false
+						for _, a := range x.Call.Args {
+							if sameChan(a, od) {
+								passes = true
+							}
+						}
+						if !passes {
+							continue
+						}
+						cn := CalleeName(&x.Call)
+						if strings.Contains(cn, "DownstreamDone") {
+							return c.Rel(x.Pos()) + " (through " + cn + ")"
+						}
+						if callee := x.Call.StaticCallee(); callee != nil {
+							if why := relay(callee, depth+1); why != "" {
+								return why
+							}
+						}
+					}
+				}
+			}
+			return ""
+		}
+		why := relay(split, 0)
+		nsub := 0
+		for _, f := range funcsInFile(c, "pkg/transformers", "split.go") {
+			if f == split || f.Signature.Recv() == nil || paramOfType(f, chanElemIsBool, types.SendOnly, 0) == nil {
+				continue
+			}
+			nsub++
+			if w := relay(f, 0); w != "" && why == "" {
+				why = w
+			}
+		}
+		r.Check(why == "" && nsub >= 2, "R20.6", "split does not relay downstream-done", c.Rel(split.Pos()), fmt.Sprintf("neither Transform nor the %d per-mode record functions send on the upstream done channel", nsub),
+			"split forwards the downstream-done signal upstream at "+why+": with 'split -v then head' the reader stops early and the split files hold only what had been read by then")
+	}
 
 	// the chain runner must leave the relay decision to the verb: it may hand the
 	// upstream done channel only to Transform / ProduceStream (and to its own batch
